@@ -322,7 +322,12 @@ def install(ai: AbsInt, ctx, clip_model=True):
                     f.bad.append(f'read_bytes({size}) runs into {it!r}')
                     return Opaque('misaligned read_bytes')
             return AList(out, 'list')
+        nbad = len(f.bad)
         r = f.read(size, node)
+        if isinstance(r, Opaque) and f.pos >= len(f.stream):
+            # the stream ended before `size` bytes were there: read_byte raises EOFError
+            del f.bad[nbad:]
+            raise AbsRaise('EOFError', node)
         if isinstance(r, AList):
             return AList(r.items, 'list')
         if r == b'':
@@ -330,7 +335,18 @@ def install(ai: AbsInt, ctx, clip_model=True):
         return r
     ai.summaries['mido/midifiles/midifiles.py::read_bytes'] = s_read_bytes
 
+    def current_charset(interp):
+        key = (META_MOD, '_charset')
+        if key in interp.global_store:
+            return interp.global_store[key]
+        try:
+            return interp.f.global_value(ctx.p.module(META_MOD), '_charset')
+        except Exception:
+            return Opaque('charset')
+
     def s_encode_string(interp, args, kwargs, node):
+        from .absint import log_event
+        log_event('codec', 'encode', current_charset(interp))
         v = args[0]
         if isinstance(v, StrSym):
             return AList([v.bytes], 'list')
@@ -339,6 +355,8 @@ def install(ai: AbsInt, ctx, clip_model=True):
         return Opaque('encode_string')
 
     def s_decode_string(interp, args, kwargs, node):
+        from .absint import log_event
+        log_event('codec', 'decode', current_charset(interp))
         v = args[0]
         if isinstance(v, AList) and len(v.items) == 1 and isinstance(v.items[0], SeqVar) and hasattr(v.items[0], 'text'):
             return v.items[0].text
